@@ -192,6 +192,7 @@ enum { CQ_START = 0, CQ_OPEN = 1, CQ_AFTERV = 2, CQ_AFTERC = 3, CQ_ACC = 4, CQ_R
       verif_q = verif_c == -1 ? CQ_TRUNC : C05_ISCLOSER(verif_c) ? CQ_REJ : CQ_PENDV; } \
     C05_C_SYNC; C05_VARIANT; }
 #define C05_DICT_VAL_DONE C05_C_VAL_DONE(CQ_PENDV, verif_v)
+#define C05_DICT_VAL_DONE_IN(v) C05_C_VAL_DONE(CQ_PENDV, v) /* same step when the source names its own temporary */
 #define C05_DICT_PEEK_C C05_C_PEEK_C('}')
 
 #define C05_CONTAINER_POST(kindv) \
